@@ -86,6 +86,10 @@ def run_tlc(module_path, cfg_path, env=None, workers=1, heap="2g", timeout=900, 
     if metadir is None:
         metadir = os.path.join(WORK, "tlc", "m%d_%d" % (os.getpid(), int(time.time() * 1e6) % 10**9))
     os.makedirs(os.path.dirname(metadir), exist_ok=True)
+    # TLC leaves a scratch directory per run in java.io.tmpdir: keep it under work/ and remove it with the run
+    jtmp = metadir + "_tmp"
+    os.makedirs(jtmp, exist_ok=True)
+    e["JAVA_TOOL_OPTIONS"] = e["JAVA_TOOL_OPTIONS"] + " -Djava.io.tmpdir=" + jtmp
     cmd = ["java", "-XX:+UseParallelGC", "-Xmx" + heap, "-cp", TLA_CP, "tlc2.TLC",
            "-workers", str(workers), "-metadir", metadir, "-cleanup", "-noGenerateSpecTE",
            "-config", cfg_path]
@@ -103,9 +107,11 @@ def run_tlc(module_path, cfg_path, env=None, workers=1, heap="2g", timeout=900, 
                cwd=os.path.dirname(module_path), text=True, errors="replace")
     except subprocess.TimeoutExpired:
         shutil.rmtree(metadir, ignore_errors=True)
+        shutil.rmtree(jtmp, ignore_errors=True)
         raise ToolError("TLC timeout after %ss: %s" % (timeout, res.cmd))
     res.wall = time.time() - t0
     shutil.rmtree(metadir, ignore_errors=True)
+    shutil.rmtree(jtmp, ignore_errors=True)
     out = p.stdout
     res.output = out
     for line in out.splitlines():
